@@ -191,13 +191,14 @@ class SrcGen:
                 self.emit(ind + 1, "_.z%d = x0" % self.fresh())
             self.body(ind + 1, depth, conj(eff, v), True)
             rest = 1 - v
-            if r.random() < 0.4:
-                c2, v2 = self.cond()
+            public_if = not c.startswith("c")       # a public (true) condition: further branches would be publicly dead, which the
+            if not public_if and r.random() < 0.4:  # library refuses in its own ways (DESIGN 6.12) - none are generated
+                c2, v2 = self.cond(allow_public=False)
                 self.emit(ind, "if _elif(lambda: %s, ctx=_):" % c2)
                 self.emit(ind + 1, "__inside(%d, %d)" % (rid, conj(conj(eff, rest), v2)))
                 self.body(ind + 1, depth, conj(conj(eff, rest), v2), True)
                 rest = rest & (1 - v2)
-            if r.random() < 0.5:
+            if not public_if and r.random() < 0.5:
                 self.emit(ind, "if _else(ctx=_):")
                 self.emit(ind + 1, "__inside(%d, %d)" % (rid, conj(eff, rest)))
                 self.body(ind + 1, depth, conj(eff, rest), True)
@@ -214,6 +215,9 @@ class SrcGen:
             self.emit(ind, "while _while(%s, ctx=_) and %s < %d:" % (c, n, 1 if pub_break else r.randint(1, 2)))
             self.emit(ind + 1, "%s += 1" % n)
             self.emit(ind + 1, "__inside(%d, %d)" % (rid, conj(eff, v)))
+            if self.force_misuse:
+                self.force_misuse = False
+                self.emit(ind + 1, "_.z%d = x0" % self.fresh())     # a loop body may not introduce a variable: refused at the loop head / end
             self.body(ind + 1, depth, conj(eff, v), True)
             if pub_break:
                 # a break on a public condition: everything after it in the loop is dead
@@ -229,6 +233,9 @@ class SrcGen:
             self.emit(ind, "__enter(%d, 'block', -1, _)" % rid)
             self.emit(ind, "for i%d in _range(PrivVal(%d), max=%d, ctx=_):" % (rid, stop, r.randint(2, 3)))
             self.emit(ind + 1, "__inside(%d, %d)" % (rid, conj(eff, -1)))
+            if self.force_misuse:
+                self.force_misuse = False
+                self.emit(ind + 1, "_.z%d = x0" % self.fresh())
             self.body(ind + 1, depth, conj(eff, -1), True)
             self.emit(ind, "try:")
             self.emit(ind + 1, "_endfor(ctx=_)")
@@ -360,6 +367,51 @@ class Monitor:
             self.problems.append(("ignore-mode-not-derived-from-guard", "inside region %d _ignore_errors is %r with effective guard %d" % (rid, rt._ignore_errors, expected)))
         elif rt.LinComb.ONE is not (g if g is not None else rt.LinComb.ONE_SAFE):
             self.problems.append(("constant-one-not-guard", "inside region %d LinComb.ONE is not the guard" % rid))
+
+    # the block API's own calls (loop head, _elif/_else, closing calls): when one of them refuses the program, that exception
+    # leaves the innermost open block region through the library's hands - an end event, so the state must be the entry state
+    BLOCK_CALLS = ("_if", "_elif", "_else", "_endif", "_while", "_endwhile", "_breakif", "_endfor")
+
+    def watch_block_api(self):
+        """sys.monitoring PY_UNWIND (tool id 4) on the code objects of the block API's entry points: no wrapper, so the frames the
+        library inspects to tell one loop from another are untouched"""
+        if getattr(Monitor, "_watch", None) is not None:
+            Monitor._watch["mon"] = self
+            return
+        br = self.br
+        targets = {}
+        for name in self.BLOCK_CALLS:
+            fn = getattr(br, name, None)
+            if fn is not None and hasattr(fn, "__code__"):
+                targets[fn.__code__] = name
+        it = getattr(br, "ObliviousIterator", None)
+        if it is not None and hasattr(it, "__next__"):
+            targets[it.__next__.__code__] = "_range.__next__"
+        Monitor._watch = dict(mon=self, targets=targets)
+        m = sys.monitoring
+        try:
+            m.use_tool_id(4, "vf-unwind")
+        except ValueError:
+            pass
+
+        def cb(code, offset, exc):
+            name = Monitor._watch["targets"].get(code)
+            if name is not None and not isinstance(exc, (Injected, InjectedBase, StopIteration)):
+                Monitor._watch["mon"].block_call_raised(name)
+        m.register_callback(4, m.events.PY_UNWIND, cb)
+        m.set_events(4, m.events.PY_UNWIND)
+
+    def block_call_raised(self, name):
+        opened = [(rid, e) for rid, e in self.regions.items() if e["kind"] == "block"]
+        if not opened:
+            return
+        rid, ent = opened[-1]            # dicts keep insertion order: the most recently entered open block
+        if name == "_if":
+            return                       # the refusal came before the region existed
+        self.R.count("block_calls_refused_by_library")
+        if not self.same(ent["triple"], self.triple()):
+            self.problems.append(("state-not-restored:block:refused-by-" + name,
+                                  "region %d: the library's %s call raised and left %s, at entry: %s" % (rid, name, self.fmt(self.triple()), self.fmt(ent["triple"]))))
 
     def leave(self, rid, bv=None):
         ent = self.regions.get(rid)
@@ -497,6 +549,7 @@ def execute(G, N, M, fp, R, prog, chunks, inputs, k, src, base=False):
 
     def pre(ns):
         ns["__enter"], ns["__leave"], ns["__inside"] = M.enter, M.leave, M.inside
+        M.watch_block_api()
     fp.arm(chunks, k, base)
     try:
         out = G.run_api(prog, inputs, N, pre=pre, chunks=chunks, ignore=M.base_ignore)
